@@ -1,6 +1,6 @@
 SPECIFICATION Spec
 CONSTANTS
-  NRand = 300
+  NRand = 1000
 INVARIANTS InRange TextRoundTrip LenLaw ParseInverse HexInverse TwosComplement
 CONSTRAINT Emit
 CHECK_DEADLOCK FALSE
